@@ -2,6 +2,7 @@ import Driver.Util
 import Driver.Wf
 import DoviModel.Model.Json
 import DoviModel.Model.Esc
+import DoviModel.Model.Nalu
 namespace Driver.RpuOps
 open Dovi Driver
 
@@ -10,12 +11,6 @@ def resJson (r : Res Rpu) : String :=
   | .ok r => "ok " ++ r.toJson.render
   | .error => "err"
   | .panic => "panic"
-
-def parseNalu (d : Bytes) : Res Rpu :=
-  (trimPrefix d).bind fun t => parseRpu (Esc.unescape t)
-
-def writeNalu (r : Rpu) : Res Bytes :=
-  (writeRpu r).bind fun o => .ok (0x7C :: 0x01 :: Esc.escape o)
 
 def resWrite (p : Res Rpu) (w : Rpu → Res Bytes) : String :=
   match p with
